@@ -72,17 +72,84 @@ Fixpoint split_on (sep : ascii) (s : string) : list string :=
            end
   end.
 
+(* fn csv_escape (response_output_format.rs): RFC 4180 quoting of one field *)
+Definition needs_quote (s : string) : bool :=
+  contains_char ","%char s || contains_char """"%char s || contains_char "010"%char s || contains_char "013"%char s.
+Fixpoint double_quotes (s : string) : string :=
+  match s with
+  | EmptyString => EmptyString
+  | String c r => if Ascii.eqb c """"%char then String c (String c (double_quotes r)) else String c (double_quotes r)
+  end.
+Definition csv_escape (s : string) : string :=
+  if needs_quote s then dquote ++ double_quotes s ++ dquote else s.
+
+(* A CSV reader with the field rules of RFC 4180 as the `csv` crate (csv-core, default
+   settings) implements them: a field that starts with the quote character is quoted, inside
+   it a doubled quote is a quote and anything else (commas, line breaks) is data, text after
+   the closing quote is appended to the field, CR or LF end a record, empty lines are
+   skipped.  Specification-side: used to state what "the columns follow the header" means. *)
+Definition frev {A} (l : list A) : list A := rev_append l [].
+Inductive rst := SR | SF | IFd | IQ | IDQ.
+Definition is_term (c : ascii) : bool := Ascii.eqb c "010"%char || Ascii.eqb c "013"%char.
+Fixpoint csv_read (s : string) (st : rst) (f : list ascii) (r : list string) (acc : list (list string))
+  : list (list string) :=
+  let endf := string_of_list_ascii (frev f) :: r in
+  match s with
+  | EmptyString =>
+      match st with
+      | SR => frev acc
+      | _ => frev (frev endf :: acc)
+      end
+  | String c t =>
+      match st with
+      | SR => if is_term c then csv_read t SR [] [] acc
+              else if Ascii.eqb c """"%char then csv_read t IQ [] [] acc
+              else if Ascii.eqb c ","%char then csv_read t SF [] [EmptyString] acc
+              else csv_read t IFd [c] [] acc
+      | SF => if is_term c then csv_read t SR [] [] (frev endf :: acc)
+              else if Ascii.eqb c """"%char then csv_read t IQ [] r acc
+              else if Ascii.eqb c ","%char then csv_read t SF [] endf acc
+              else csv_read t IFd [c] r acc
+      | IFd => if is_term c then csv_read t SR [] [] (frev endf :: acc)
+               else if Ascii.eqb c ","%char then csv_read t SF [] endf acc
+               else csv_read t IFd (c :: f) r acc
+      | IQ => if Ascii.eqb c """"%char then csv_read t IDQ f r acc
+              else csv_read t IQ (c :: f) r acc
+      | IDQ => if Ascii.eqb c """"%char then csv_read t IQ (c :: f) r acc
+               else if is_term c then csv_read t SR [] [] (frev endf :: acc)
+               else if Ascii.eqb c ","%char then csv_read t SF [] endf acc
+               else csv_read t IFd (c :: f) r acc
+      end
+  end.
+Definition csv_records (s : string) : list (list string) := csv_read s SR [] [] [].
+(* an empty row (one column, empty field) is written as a quoted empty field *)
+Definition nonblank (row0 : string) : string :=
+  match row0 with EmptyString => dquote ++ dquote | _ => row0 end.
+(* how the sink writes one CSV record from its fields *)
+Definition csv_line (fields : list string) : string := join "," (map csv_escape fields) ++ nl.
+
 Fixpoint indent (n : nat) : string :=
   match n with O => EmptyString | S k => "  " ++ indent k end.
 
 (* u64 / i64 `as f64`: round to nearest, ties to even *)
 Definition Z2float (z : Z) : float := SF2Prim (binary_normalize FloatOps.prec FloatOps.emax z 0 false).
 Definition f_finite (f : float) : bool := negb (PrimFloat.is_nan f || PrimFloat.is_infinity f).
+(* The binary64 operations the formatter uses (only inside CsvMapping::Sum).  The model is
+   parametric in them, so that no theorem depends on the kernel's primitive float operations;
+   the runner instantiates them with the IEEE primitives [prim_fops]. *)
+Record fops := { f_add : float -> float -> float;      (* f64 + f64 *)
+                 f_of_Z : Z -> float;                  (* u64 / i64 as f64 *)
+                 f_is_finite : float -> bool;
+                 f_zero : float; f_neg_zero : float }.
+Definition prim_fops : fops :=
+  {| f_add := PrimFloat.add; f_of_Z := Z2float; f_is_finite := f_finite;
+     f_zero := PrimFloat.zero; f_neg_zero := PrimFloat.neg_zero |}.
 
 (* ------------------------------------------------------------------------------------ *)
 Section Fmt.
   Variable fj : float -> string.   (* serde_json (ryu) text of a finite f64 *)
   Variable fd : float -> string.   (* Rust `Display for f64` *)
+  Variable fo : fops.              (* f64 arithmetic *)
 
   (* serde_json::to_string, also `Display for Value` (cell.to_string(), "{}" in messages) *)
   Fixpoint to_string (j : json) : string :=
@@ -135,8 +202,8 @@ Section Fmt.
   (* the per-value conversion inside Sum: Null counts 0.0, a number is read `as_f64` *)
   Definition num_of (v : json) : float + string :=
     match v with
-    | JNull => inl PrimFloat.zero
-    | JInt z => inl (Z2float z)
+    | JNull => inl (f_zero fo)
+    | JInt z => inl (f_of_Z fo z)
     | JFloat f => inl f
     | _ => inr ("expected a number, found " ++ to_string v)
     end.
@@ -145,8 +212,8 @@ Section Fmt.
   Definition rights {A B} (l : list (A + B)) : list B :=
     flat_map (fun x => match x with inl _ => [] | inr b => [b] end) l.
   (* `Iterator::sum::<f64>()` folds from -0.0;  json![f64] is Null for a non-finite value *)
-  Definition f_sum (l : list float) : float := fold_left PrimFloat.add l PrimFloat.neg_zero.
-  Definition json_of_f64 (f : float) : json := if f_finite f then JFloat f else JNull.
+  Definition f_sum (l : list float) : float := fold_left (f_add fo) l (f_neg_zero fo).
+  Definition json_of_f64 (f : float) : json := if f_is_finite fo f then JFloat f else JNull.
 
   Definition sum_results (rs : list mres) : mres :=
     match errs rs with
@@ -197,7 +264,7 @@ Section Fmt.
   Definition order (sorted : bool) (m : mapping) : mapping :=
     if sorted then sort_by_key m else rev m.
   Definition header_cols (sorted : bool) (m : mapping) : list string := map fst (order sorted m).
-  Definition header_line (sorted : bool) (m : mapping) : string := join "," (header_cols sorted m) ++ nl.
+  Definition header_line (sorted : bool) (m : mapping) : string := csv_line (header_cols sorted m).
 
   Definition initial_file_contents (f : ofmt) : option string :=
     match f with
@@ -217,12 +284,15 @@ Section Fmt.
     | FCsv _ _ => Some nl
     end.
 
-  Definition cell_text (c : mres) : string :=
-    match c with MOk v => to_string v | MErr _ => "" end.
+  (* fn csv_cell: a string by its content, anything else by its JSON text; a failed mapping
+     gives an empty field.  [cell_value] is the field before quoting. *)
+  Definition cell_value (c : mres) : string :=
+    match c with MOk (JStr s) => s | MOk v => to_string v | MErr _ => "" end.
+  Definition cell_text (c : mres) : string := csv_escape (cell_value c).
   Definition row_results (sorted : bool) (m : mapping) (r : json) : list (string * mres) :=
     map (fun kv => (fst kv, apply_mapping (snd kv) r)) (order sorted m).
   Definition row_cells (sorted : bool) (m : mapping) (r : json) : list string :=
-    map (fun kc => cell_text (snd kc)) (row_results sorted m r).
+    map (fun kc => cell_value (snd kc)) (row_results sorted m r).
   Definition row_errors (cs : list (string * mres)) : list (string * json) :=
     flat_map (fun kc => match snd kc with MOk _ => [] | MErr msg => [(fst kc, JStr msg)] end) cs.
 
@@ -242,7 +312,9 @@ Section Fmt.
     | FJson nd => Ok (if nd then to_string r else pretty 0 r, r)
     | FCsv m sorted =>
         let cs := row_results sorted m r in
-        let row := join "," (map (fun kc => cell_text (snd kc)) cs) in
+        let row0 := join "," (map (fun kc => cell_text (snd kc)) cs) in
+        (* an empty row (one column, empty field) is written as a quoted empty field *)
+        let row := nonblank row0 in
         match row_errors cs with
         | [] => Ok (row, r)
         | es =>
@@ -273,6 +345,13 @@ Section Fmt.
     | None => Ok (c, 1%nat)
     | Some z => if (z <=? 0)%Z then Err "iterations_per_flush must be positive" else Ok (c, Z.to_nat z)
     end.
+  (* the formatter as the concurrent sink of Part 2 sees it: the bytes of the row, or None when
+     format_response does not return a row *)
+  Definition sink_fmt (f : ofmt) (r : json) : option (list ascii) :=
+    match format_response f r with
+    | Ok (row, _) => Some (list_ascii_of_string row)
+    | _ => None
+    end.
 End Fmt.
 
 (* ------------------------------------------------------------------------------------ *)
@@ -299,7 +378,8 @@ Section Conc.
      whose record is completely in the file (in file order), responses whose formatting failed. *)
   Record state := { rfile : list B; holder : option nat; counter : nat;
                     thr : list thread; log : list R; dropped : list R }.
-  Definition file (s : state) : list B := rev (rfile s).
+  (* [rev_append l [] = rev l], linear time *)
+  Definition file (s : state) : list B := rev_append (rfile s) [].
 
   Fixpoint upd {A} (l : list A) (i : nat) (x : A) : list A :=
     match l, i with
@@ -385,7 +465,7 @@ Section Conc.
   (* the sink right after ResponseOutputPolicy::build: [base] is what the file holds (the
      header of a new file, or everything an earlier run left), thread i will write queues[i] *)
   Definition init (base : list B) (queues : list (list R)) : state :=
-    {| rfile := rev base; holder := None; counter := 0;
+    {| rfile := rev_append base []; holder := None; counter := 0;
        thr := map (fun q => {| t_pc := Idle; t_todo := q |}) queues; log := []; dropped := [] |}.
   Definition quiescent (s : state) : Prop :=
     forall t th, nth_error (thr s) t = Some th -> t_pc th = Idle /\ t_todo th = [].
